@@ -80,10 +80,11 @@ const (
 	fMiddleware
 	fSetWriter
 	fFreshContext
+	fReplaceReqFiltered
 	nBehaviours
 )
 
-var behName = []string{"pass", "attr", "replace-request", "replace-response", "replace-http-request", "middleware-adapter", "set-response-writer", "http-request-on-fresh-context"}
+var behName = []string{"pass", "attr", "replace-request", "replace-response", "replace-http-request", "middleware-adapter", "set-response-writer", "http-request-on-fresh-context", "replace-request-dropping-and-overriding-attributes"}
 
 func mkFilter(name string, beh int) restful.FilterFunction {
 	if beh == fMiddleware {
@@ -122,6 +123,21 @@ func mkFilter(name string, beh int) restful.FilterFunction {
 			for _, k := range c06AttrKeys {
 				if v := req.Attribute(k); v != nil {
 					nr.SetAttribute(k, v)
+				}
+			}
+			req = nr
+		case fReplaceReqFiltered:
+			// passes on a Request of its own making that carries only SOME of the attributes, one of them with another value:
+			// what later elements see is that Request, nothing of the one it replaces
+			nr := restful.NewRequest(req.Request)
+			for i, k := range c06AttrKeys {
+				if v := req.Attribute(k); v != nil {
+					switch i % 3 {
+					case 0:
+						nr.SetAttribute(k, v)
+					case 1:
+						nr.SetAttribute(k, fmt.Sprint(v)+"/overridden-by-"+name)
+					}
 				}
 			}
 			req = nr
@@ -387,7 +403,7 @@ func genBehs(r *core.Rand, max int) []int {
 
 func c06(ctx *core.Ctx) {
 	quietLogs()
-	ctx.Rule("generated configurations: 0-5 container filters (now and then 9, 17, 33 or 65 at a level), two WebServices with 0-3 service filters, two routes and a pair of representation twins (same method and path, JSON vs XML) with 0-3 route filters each, now and then two routes built from one reused RouteBuilder (the second inherits the first one's filters), every filter named after its owner, behaviour per filter in {pass, set attribute, replace Request, replace Response, replace http.Request (derived or on a fresh context), HttpMiddlewareHandlerToFilter around a wrapping middleware, set ResponseWriter}; any filter short-circuits on demand of the request; service / container filters registered before or after the routes / services; handlers that panic (recovery on: nothing in the chain may run a second time). 40-request sequences (routed, 404 and 405 routing failures with POST/HEAD/PUT/DELETE/PATCH, HandleWithFilter) run sequentially on one container and then from 16 (every 5th configuration: 70) goroutines (race detector on). Offline checker per request: exact enter/pass/exit sequence = prefix of [container.., service.., route.., handler] with reversed exits, each once, hand-over identity of (Request, Response, http.Request, writer, attributes). Non-trivial = a request whose chain has >= 2 elements; distinct by (filter counts per level, short-circuit position, request kind, behaviours on the path).")
+	ctx.Rule("generated configurations: 0-5 container filters (now and then 9, 17, 33 or 65 at a level), two WebServices with 0-3 service filters, two routes and a pair of representation twins (same method and path, JSON vs XML) with 0-3 route filters each, now and then two routes built from one reused RouteBuilder (the second inherits the first one's filters), every filter named after its owner, behaviour per filter in {pass, set attribute, replace Request (all attributes copied, or some dropped and one overridden), replace Response, replace http.Request (derived or on a fresh context), HttpMiddlewareHandlerToFilter around a wrapping middleware, set ResponseWriter}; any filter short-circuits on demand of the request; service / container filters registered before or after the routes / services; handlers that panic (recovery on: nothing in the chain may run a second time). 40-request sequences (routed, 404 and 405 routing failures with POST/HEAD/PUT/DELETE/PATCH, HandleWithFilter) run sequentially on one container and then from 16 (every 5th configuration: 70) goroutines (race detector on). Offline checker per request: exact enter/pass/exit sequence = prefix of [container.., service.., route.., handler] with reversed exits, each once, hand-over identity of (Request, Response, http.Request, writer, attributes). Non-trivial = a request whose chain has >= 2 elements; distinct by (filter counts per level, short-circuit position, request kind, behaviours on the path).")
 	ctx.Assume("a filter that replaces the Request copies the attributes it knows about (the API offers no enumeration)")
 	configs := ctx.N(250, 20000)
 	for ci := 0; ci < configs; ci++ {
